@@ -168,10 +168,13 @@ def enrich(rng, cfg, ops, density=0.5, heavy=True):
     nodes = cfg["nodes"]
     out, nv = [], 0
     for op in ops:
+        if op["op"] == "load" and rng.random() < float(os.environ.get("VERIF_NETLOAD", "0.5")):
+            # the same load through the real transport: gossip server, proto mapping, updateDag (loopback gRPC)
+            op = dict(op, op="netload")
         out.append(op)
         if op.get("id", 0) > nv:
             nv = op["id"]
-        if op["op"] in ("commit", "truncate", "genesis", "load", "propose", "deliver", "tick") and rng.random() < density:
+        if op["op"] in ("commit", "truncate", "genesis", "load", "netload", "propose", "deliver", "tick") and rng.random() < density:
             out += observe_ops(rng, cfg, nv, nodes)
     out += final_ops(cfg, nv + len(cfg["trx"]), nodes, heavy)
     return out
@@ -505,7 +508,7 @@ PROPS = {
     "C13": dict(strict=["DeliverPre", "DeliverCommit", "TickPop", "Compare", "Wedged"],
                 inv=["C03_UniqueTrx", "TypeOK"], prop=["C01_NoOverdraftConfirmed"],
                 gens=[("twosingle", 1.0)], fams=["orphans"], mc="two"),
-    "C14": dict(strict=["Load", "Compare", "Wedged"], inv=[], prop=["C14_LoadEqualsSource"],
+    "C14": dict(strict=["Load", "Compare", "Wedged"], inv=[], prop=["C14_T"],
                 gens=[("twosingle", 1.0)], fams=["load"], mc="two"),
 }
 
@@ -513,7 +516,8 @@ FAMS = {
     "truncation": lambda rng, tier: fam_truncation(rng) + fam_drain(rng) + fam_trunc_race(rng) + fam_trunc_cancel(rng),
     "concurrent": lambda rng, tier: fam_concurrent(rng),
     "orphans": lambda rng, tier: fam_orphans(rng, 120 if tier == "thorough" else 30),
-    "load": lambda rng, tier: fam_load(rng),
+    "load": lambda rng, tier: fam_load(rng) + [(sh, d, [dict(o, op="netload") if o["op"] == "load" else o for o in ops])
+                                               for sh, d, ops in fam_load(rng)],
     "doublespend": lambda rng, tier: fam_doublespend(rng),
     "rules": lambda rng, tier: fam_rules(rng),
     "canon": lambda rng, tier: fam_canon(rng),
@@ -553,7 +557,8 @@ def drive(wd, drivebin, groups):
     while pending or running:
         while pending and len(running) < NCPU:
             key, c, d = pending.pop(0)
-            running.append((key, subprocess.Popen(c, cwd=d, stdout=subprocess.PIPE, stderr=subprocess.DEVNULL, text=True), time.time()))
+            running.append((key, subprocess.Popen(c, cwd=d, stdout=subprocess.DEVNULL, stderr=open(os.path.join(d, "stderr.log"), "w"),
+                                                  text=True, env=dict(os.environ, GOTRACEBACK="all")), time.time()))
         still = []
         for key, p, t0 in running:
             if p.poll() is None:
@@ -563,7 +568,9 @@ def drive(wd, drivebin, groups):
                 still.append((key, p, t0))
                 continue
             if p.returncode != 0:
-                raise Inconclusive("driver failed on group %s (rc=%s)" % (key, p.returncode))
+                why = [l.rstrip() for l in open(os.path.join(wd, "cwd_%s" % key, "stderr.log"), errors="replace")
+                       if not l.startswith(("badger ", "Level ")) and l.strip()]
+                raise Inconclusive("driver failed on group %s (rc=%s): %s" % (key, p.returncode, " | ".join(why[:12])[:1500]))
         running = still
         if running:
             time.sleep(0.1)
